@@ -174,18 +174,22 @@ type tok struct {
 
 type prec struct {
 	p        *sync2.Pool[*tok]
-	minted   int
-	newCalls int
+	minted   [8]int // per thread: a shared counter would be communication between threads the explorer cannot see
+	newCalls [8]int
 	viol     *schk.Fail
 	log      []string
 }
 
-// mint is the pool's New: numbered fresh tokens (the counter is harness bookkeeping).
+// mint is the pool's New: fresh tokens numbered per calling thread.
 //
 //go:norace
 func (r *prec) mint() *tok {
-	r.newCalls++
-	return &tok{id: r.newCalls}
+	me := vrt.Self()
+	if me < 0 || me > 6 {
+		me = 7
+	}
+	r.newCalls[me]++
+	return &tok{id: 1000*(me+1) + r.newCalls[me]}
 }
 
 //go:norace
@@ -230,8 +234,8 @@ func (r *prec) run(th int, prog string, withNew bool) {
 			t.held--
 			r.p.Put(t)
 		case 'N':
-			r.minted++
-			r.p.Put(&tok{id: 100 + 10*th + r.minted})
+			r.minted[th]++
+			r.p.Put(&tok{id: 100 + 10*th + r.minted[th]})
 		case 'Y':
 			vrt.Yield("h.holding", unsafe.Pointer(r), false)
 		}
